@@ -32,6 +32,8 @@ macro_rules! blake_ff {
             let mut h = <$T>::default();
             h.verif_set_counter(base as $word, (base >> $bits) as $word);
             Digest::update(&mut h, rest);
+            // every other event finalizes a CLONE taken at that point (the copy must carry the whole counter)
+            let h = if rest.len() % 2 == 0 { h.clone() } else { h };
             Digest::finalize(h).to_vec()
         });
         emit($out, "ff", $alg, <$T as Digest>::output_size(), base, $nl, None, false, 0, rest, r, $tag);
@@ -45,6 +47,8 @@ macro_rules! groestl_ff {
             let mut h = <$T>::default();
             h.verif_set_counter(base);
             Digest::update(&mut h, rest);
+            // every other event finalizes a CLONE taken at that point (the copy must carry the whole counter)
+            let h = if rest.len() % 2 == 0 { h.clone() } else { h };
             Digest::finalize(h).to_vec()
         });
         emit($out, "ff", $alg, <$T as Digest>::output_size(), base as u128, 4, None, false, 0, rest, r, $tag);
@@ -58,6 +62,8 @@ macro_rules! jh_ff {
             let mut h = <$T>::default();
             h.verif_set_counter(base as usize);
             Digest::update(&mut h, rest);
+            // every other event finalizes a CLONE taken at that point (the copy must carry the whole counter)
+            let h = if rest.len() % 2 == 0 { h.clone() } else { h };
             Digest::finalize(h).to_vec()
         });
         emit($out, "ff", $alg, <$T as Digest>::output_size(), base as u128, 8, None, false, 0, rest, r, $tag);
@@ -71,6 +77,8 @@ macro_rules! skein_ff {
             let mut h = <$T>::default();
             h.verif_set_counter(base);
             Digest::update(&mut h, rest);
+            // every other event finalizes a CLONE taken at that point (the copy must carry the whole counter)
+            let h = if rest.len() % 2 == 0 { h.clone() } else { h };
             Digest::finalize(h).to_vec()
         });
         emit($out, "ff", $alg, <$T as Digest>::output_size(), base as u128, 4, None, base == 0, 0, rest, r, $tag);
